@@ -143,9 +143,49 @@ impl StunAttributes {
     // `add<T: Into<StunAttribute>>`: the generic front of vx_add
     pub fn add<T: VxIntoAttr>(&mut self, attribute: T)
         requires old(self).wf(),
-        ensures final(self).wf(), added(*old(self), *final(self), attribute.vx_attr()),
+        ensures final(self).wf(),
+            attribute.vx_attr().ty() == TY_MESSAGE_INTEGRITY ==> final(self).integrity == Some(attribute.vx_attr())
+                && final(self).integrity_sha256 == old(self).integrity_sha256 && final(self).fingerprint == old(self).fingerprint,
+            attribute.vx_attr().ty() == TY_MESSAGE_INTEGRITY_SHA256 ==> final(self).integrity_sha256 == Some(attribute.vx_attr())
+                && final(self).integrity == old(self).integrity && final(self).fingerprint == old(self).fingerprint,
+            attribute.vx_attr().ty() == TY_FINGERPRINT ==> final(self).fingerprint == Some(attribute.vx_attr())
+                && final(self).integrity == old(self).integrity && final(self).integrity_sha256 == old(self).integrity_sha256,
+            !is_trailer_ty(attribute.vx_attr().ty()) ==> final(self).integrity == old(self).integrity
+                && final(self).integrity_sha256 == old(self).integrity_sha256 && final(self).fingerprint == old(self).fingerprint,
+            // replaced in place when the type is present ...
+            (!is_trailer_ty(attribute.vx_attr().ty()) && !lacks(old(self).attributes@, attribute.vx_attr().ty()))
+                ==> added(*old(self), *final(self), attribute.vx_attr()),
+            // ... appended when no attribute of that type is present; absence of other types is preserved
+            (!is_trailer_ty(attribute.vx_attr().ty()) && lacks(old(self).attributes@, attribute.vx_attr().ty()))
+                ==> final(self).attributes@ == old(self).attributes@.push(attribute.vx_attr()),
+            forall|t: u16| t != attribute.vx_attr().ty() && lacks(old(self).attributes@, t) ==> #[trigger] lacks(final(self).attributes@, t),
+            is_trailer_ty(attribute.vx_attr().ty()) ==> final(self).attributes@ == old(self).attributes@,
     {
+        let ghost a = attribute.vx_attr();
+        let ghost s0 = self.attributes@;
         self.vx_add(attribute.vx_into());
+        proof {
+            reveal(lacks); reveal(seq_index_of);
+            if !is_trailer_ty(a.ty()) {
+                if lacks(s0, a.ty()) {
+                    assert(seq_index_of(s0, a.ty()) is None) by {
+                        if exists|i: int| 0 <= i < s0.len() && s0[i].ty() == a.ty() {
+                            let i = choose|i: int| 0 <= i < s0.len() && s0[i].ty() == a.ty();
+                            assert(s0[i].ty() != a.ty());
+                        }
+                    }
+                }
+                assert forall|t: u16| t != a.ty() && lacks(s0, t) implies #[trigger] lacks(self.attributes@, t) by {
+                    let s1 = self.attributes@;
+                    assert forall|i: int| 0 <= i < s1.len() implies (#[trigger] s1[i]).ty() != t by {
+                        match seq_index_of(s0, a.ty()) {
+                            Some(k) => { if i != k { assert(s1[i] == s0[i]); } },
+                            None => { if i < s0.len() { assert(s1[i] == s0[i]); } },
+                        }
+                    }
+                }
+            }
+        }
     }
 }
 // the effect of StunAttributes::add, as a relation (restating the contract proved in unit attrset)
@@ -366,9 +406,7 @@ impl ShortTermCredentialClient {
 }
 
 // ordinary attributes of `s` without the one of type t (order of the others kept)
-pub open spec fn without_ty(s: StunAttributes, t: u16) -> Seq<StunAttribute> {
-    match s.index_of(t) { Some(i) => s.attributes@.remove(i), None => s.attributes@ }
-}
+pub open spec fn without_ty(s: StunAttributes, t: u16) -> Seq<StunAttribute> { seq_without(s.attributes@, t) }
 pub open spec fn is_mi_with(o: Option<StunAttribute>, key: HMACKey) -> bool {
     o is Some && o->Some_0 is MessageIntegrity && o->Some_0->MessageIntegrity_0.key() == key
 }
@@ -397,7 +435,294 @@ pub open spec fn st_prepared(c: ShortTermCredentialClient, s0: StunAttributes, s
         final(attributes).attributes@ == without_ty(*old(attributes), TY_USERNAME),
         final(attributes).integrity is None, final(attributes).integrity_sha256 is None,
         final(attributes).fingerprint == old(attributes).fingerprint,
+        lacks(final(attributes).attributes@, TY_USERNAME),
+//@tail
+    proof { lemma_without(old(attributes).attributes@, TY_USERNAME, TY_USERNAME); }
 //@end
+
+// ---------------------------------------------------------------- lt_cred_mech.rs (RFC 8489 9.2)
+//@item! stun_rs :: mod algorithm > enum AlgorithmId
+//@item! stun_rs :: mod attributes > mod stun > mod nonce_cookie > enum StunSecurityFeatures
+#[verifier::external_body]
+pub struct StunError { _p: () }
+#[verifier::external_body]
+pub struct Algorithm { _p: () }
+impl Clone for Algorithm { #[verifier::external_body] fn clone(&self) -> (r: Self) ensures r == *self { unimplemented!() } }
+pub uninterp spec fn algorithm_of(id: AlgorithmId) -> Algorithm;
+impl vstd::std_specs::convert::FromSpecImpl<AlgorithmId> for Algorithm {
+    open spec fn obeys_from_spec() -> bool { true }
+    open spec fn from_spec(v: AlgorithmId) -> Self { algorithm_of(v) }
+}
+impl From<AlgorithmId> for Algorithm {
+    #[verifier::external_body]
+    fn from(v: AlgorithmId) -> (r: Algorithm) { unimplemented!() }
+}
+#[verifier::external_body]
+pub struct BitFlagsSec { _p: () }
+impl BitFlagsSec {
+    pub uninterp spec fn has(&self, f: StunSecurityFeatures) -> bool;
+    #[verifier::external_body]
+    pub fn contains(&self, f: StunSecurityFeatures) -> (r: bool) ensures r == self.has(f) { unimplemented!() }
+}
+// the text of string-valued attributes
+#[verifier::external_body]
+pub struct VxStr { _p: () }
+impl Nonce {
+    pub uninterp spec fn cookie(&self) -> bool;
+    pub uninterp spec fn features(&self) -> Option<BitFlagsSec>;
+    #[verifier::external_body]
+    pub fn is_nonce_cookie(&self) -> (r: bool) ensures r == self.cookie() { unimplemented!() }
+    #[verifier::external_body]
+    pub fn security_features(&self) -> (r: Result<BitFlagsSec, StunError>)
+        ensures r is Ok <==> self.features() is Some, r is Ok ==> r->Ok_0 == self.features()->Some_0,
+    { unimplemented!() }
+}
+impl PasswordAlgorithm {
+    pub uninterp spec fn alg_id(&self) -> AlgorithmId;
+    pub uninterp spec fn alg(&self) -> Algorithm;
+    #[verifier::external_body]
+    pub fn algorithm(&self) -> (r: AlgorithmId) ensures r == self.alg_id() { unimplemented!() }
+    #[verifier::external_body]
+    pub fn as_ref(&self) -> (r: &Algorithm) ensures *r == self.alg() { unimplemented!() }
+}
+impl PasswordAlgorithms {
+    pub uninterp spec fn algs(&self) -> Seq<PasswordAlgorithm>;
+    // `iter()` over the offered algorithms, as the (slice, position) iterator model
+    #[verifier::external_body]
+    pub fn iter(&self) -> (r: Iter<'_, PasswordAlgorithm>) ensures r.s@ == self.algs(), r.pos == 0 { unimplemented!() }
+}
+#[verifier::external_body]
+pub struct TypesErrorCode { _p: () }
+impl TypesErrorCode {
+    pub uninterp spec fn code(&self) -> u16;
+    #[verifier::external_body]
+    pub fn error_code(&self) -> (r: u16) ensures r == self.code() { unimplemented!() }
+}
+impl ErrorCode {
+    pub uninterp spec fn ec(&self) -> TypesErrorCode;
+    #[verifier::external_body]
+    pub fn error_code(&self) -> (r: &TypesErrorCode) ensures *r == self.ec() { unimplemented!() }
+}
+// key derivation and USERHASH (RFC 8489 9.2.2, 14.4): named functions of user, realm, password, algorithm
+pub uninterp spec fn lt_key(user: UserName, realm: Realm, password: Seq<char>, alg: Algorithm) -> Option<HMACKey>;
+pub uninterp spec fn user_hash_of(user: UserName, realm: Realm) -> Option<UserHash>;
+impl HMACKey {
+    #[verifier::external_body]
+    pub fn new_long_term(user_name: &UserName, realm: &Realm, password: &str, algorithm: Algorithm) -> (r: Result<HMACKey, StunError>)
+        ensures r is Ok <==> lt_key(*user_name, *realm, password@, algorithm) is Some,
+            r is Ok ==> r->Ok_0 == lt_key(*user_name, *realm, password@, algorithm)->Some_0,
+    { unimplemented!() }
+}
+impl UserHash {
+    #[verifier::external_body]
+    pub fn new(user_name: &UserName, realm: &Realm) -> (r: Result<UserHash, StunError>)
+        ensures r is Ok <==> user_hash_of(*user_name, *realm) is Some,
+            r is Ok ==> r->Ok_0 == user_hash_of(*user_name, *realm)->Some_0,
+    { unimplemented!() }
+}
+//@item! stun_agent :: enum StunAgentError
+//@consts stun_agent :: mod lt_cred_mech
+//@item! stun_agent :: mod lt_cred_mech > struct LongTermCredentialAttributes
+//@item! stun_agent :: mod lt_cred_mech > enum RetryCause
+//@item! stun_agent :: mod lt_cred_mech > enum LongTermCredentialState
+//@item! stun_agent :: mod lt_cred_mech > struct LongTermCredentialClient
+//@item! stun_agent :: mod lt_cred_mech > struct LongTermAttributes
+impl Clone for LongTermCredentialAttributes {
+//@item! stun_agent :: mod lt_cred_mech > impl ::core::clone::Clone for LongTermCredentialAttributes > fn clone
+}
+impl vstd::std_specs::cmp::PartialEqSpecImpl for LongTermCredentialState {
+    open spec fn obeys_eq_spec() -> bool { true }
+    open spec fn eq_spec(&self, other: &LongTermCredentialState) -> bool { *self == *other }
+}
+impl PartialEq for LongTermCredentialState {
+    #[verifier::external_body]
+    fn eq(&self, other: &LongTermCredentialState) -> (r: bool) { unimplemented!() }
+}
+
+//@item stun_agent :: mod lt_cred_mech > fn create_user_hash_attr
+//@tags C08
+//@sig
+fn create_user_hash_attr(transaction_id: &TransactionId, user_name: &UserName, realm: &Realm) -> (r: Result<UserHash, IntegrityError>)
+//@closure 1
+|e: StunError| -> (x: IntegrityError)
+    ensures x is Discarded,
+//@spec
+    ensures r is Ok <==> user_hash_of(*user_name, *realm) is Some,
+        r is Ok ==> r->Ok_0 == user_hash_of(*user_name, *realm)->Some_0,
+        r is Err ==> r->Err_0 is Discarded,
+//@end
+
+// what TransportIntegrity::compute_message_integrity does (its contract, as a relation usable by the callers' contracts)
+pub open spec fn compute_post(v0: TransportIntegrity, v1: TransportIntegrity, key: HMACKey, chosen: Option<&StunAttribute>,
+    raw: Seq<u8>, msg: &StunMessage, r: Result<(), IntegrityError>) -> bool {
+    &&& v1.is_reliable == v0.is_reliable
+    &&& (r is Ok <==> chosen is Some && mac_ok(*chosen->Some_0, key, raw))
+    &&& (r is Ok ==> v1.violated() == (if msg.sclass() is Indication { v0.violated() } else { v0.violated().remove(msg.sid()) }))
+    &&& (r is Err ==> r->Err_0 == v0.discard_outcome(msg).0 && v1.violated() == v0.discard_outcome(msg).1)
+}
+//@item stun_agent :: mod lt_cred_mech > fn authenticate_message
+//@tags C08 C17
+//@spec
+    ensures compute_post(*old(validator), *final(validator), *key,
+        (match integrity { Integrity::MessageIntegrity => message_integrity, Integrity::MessageIntegritySha256 => message_integrity_sha256 }),
+        raw_buffer@, msg, r),
+//@end
+// the algorithm the key is derived with: the chosen PASSWORD-ALGORITHM, MD5 if the server offered none (RFC 8489 9.2.4)
+pub open spec fn lt_alg(pa: Option<PasswordAlgorithm>) -> Algorithm {
+    match pa { Some(a) => a.alg(), None => algorithm_of(AlgorithmId::MD5) }
+}
+//@item stun_agent :: mod lt_cred_mech > fn create_long_term_auth_attrs
+//@tags C08
+//@closure 1
+|| -> (x: IntegrityError)
+    ensures x is Discarded,
+//@closure 2
+|| -> (x: IntegrityError)
+    ensures x is Discarded,
+//@closure 3
+|e: StunError| -> (x: IntegrityError)
+    ensures x is Discarded,
+//@spec
+    ensures
+        r is Ok <==> attrs.realm is Some && attrs.nonce is Some
+            && (user_anonymity ==> user_hash_of(*user_name, attrs.realm->Some_0) is Some)
+            && lt_key(*user_name, attrs.realm->Some_0, password@, lt_alg(attrs.password_algorithm)) is Some,
+        r is Err ==> r->Err_0 is Discarded,
+        r is Ok ==> {
+            let p = r->Ok_0;
+            &&& p.realm == attrs.realm->Some_0 && p.nonce == attrs.nonce->Some_0
+            &&& p.password_algorithms == attrs.password_algorithms && p.password_algorithm == attrs.password_algorithm
+            // the key is H(user:realm:password) under the chosen algorithm; the password itself goes nowhere else
+            &&& p.key == lt_key(*user_name, attrs.realm->Some_0, password@, lt_alg(attrs.password_algorithm))->Some_0
+            &&& p.user_hash == (if user_anonymity { Some(user_hash_of(*user_name, attrs.realm->Some_0)->Some_0) } else { None })
+            // SHA-256 integrity iff the server offered password algorithms
+            &&& p.integrity == (if attrs.password_algorithms is Some { Integrity::MessageIntegritySha256 } else { Integrity::MessageIntegrity })
+        },
+//@end
+// application-supplied credential attributes are removed before the mechanism adds its own (overridden, not duplicated)
+#[verifier::opaque]
+pub open spec fn lacks(s: Seq<StunAttribute>, t: u16) -> bool { forall|i: int| 0 <= i < s.len() ==> (#[trigger] s[i]).ty() != t }
+proof fn lemma_without(s: Seq<StunAttribute>, t: u16, u: u16)
+    requires distinct_types(s),
+    ensures distinct_types(seq_without(s, t)), lacks(seq_without(s, t), t),
+        lacks(s, u) ==> lacks(seq_without(s, t), u),
+        forall|i: int| 0 <= i < seq_without(s, t).len() ==> s.contains(#[trigger] seq_without(s, t)[i]),
+{
+    reveal(lacks); reveal(distinct_types); reveal(seq_index_of);
+    let w = seq_without(s, t);
+    match seq_index_of(s, t) {
+        Some(k) => {
+            assert(0 <= k < s.len() && s[k].ty() == t);
+            assert forall|i: int| 0 <= i < w.len() implies (#[trigger] w[i]).ty() != t && s.contains(w[i]) && (lacks(s, u) ==> w[i].ty() != u) by {
+                if i < k { assert(w[i] == s[i]); } else { assert(w[i] == s[i + 1]); }
+            }
+            assert forall|i: int, j: int| 0 <= i < j < w.len() implies w[i].ty() != w[j].ty() by {
+                let a = if i < k { i } else { i + 1 };
+                let b = if j < k { j } else { j + 1 };
+                assert(w[i] == s[a] && w[j] == s[b]);
+            }
+        },
+        None => {
+            assert forall|i: int| 0 <= i < s.len() implies (#[trigger] s[i]).ty() != t by {}
+        },
+    }
+}
+pub open spec fn lt_cleared(s: Seq<StunAttribute>) -> Seq<StunAttribute> {
+    seq_without(seq_without(seq_without(seq_without(seq_without(seq_without(s, TY_USERNAME), TY_USERHASH), TY_REALM), TY_NONCE),
+        TY_PASSWORDALGORITHM), TY_PASSWORDALGORITHMS)
+}
+//@item stun_agent :: mod lt_cred_mech > fn remove_auth_and_integrity_attrs
+//@tags C08 C13
+//@sub "fn remove_auth_and_integrity_attrs" => "fn lt_remove_auth_and_integrity_attrs"
+//@spec
+    requires old(attributes).wf(),
+    ensures final(attributes).wf(),
+        final(attributes).attributes@ == lt_cleared(old(attributes).attributes@),
+        final(attributes).integrity is None, final(attributes).integrity_sha256 is None,
+        final(attributes).fingerprint == old(attributes).fingerprint,
+        lacks(final(attributes).attributes@, TY_USERNAME), lacks(final(attributes).attributes@, TY_USERHASH),
+        lacks(final(attributes).attributes@, TY_REALM), lacks(final(attributes).attributes@, TY_NONCE),
+        lacks(final(attributes).attributes@, TY_PASSWORDALGORITHM), lacks(final(attributes).attributes@, TY_PASSWORDALGORITHMS),
+//@tail
+    proof {
+        let s0 = old(attributes).attributes@;
+        let s1 = seq_without(s0, TY_USERNAME);
+        let s2 = seq_without(s1, TY_USERHASH);
+        let s3 = seq_without(s2, TY_REALM);
+        let s4 = seq_without(s3, TY_NONCE);
+        let s5 = seq_without(s4, TY_PASSWORDALGORITHM);
+        let s6 = seq_without(s5, TY_PASSWORDALGORITHMS);
+        lemma_without(s0, TY_USERNAME, TY_USERNAME);
+        lemma_without(s1, TY_USERHASH, TY_USERNAME);
+        lemma_without(s2, TY_REALM, TY_USERNAME); lemma_without(s2, TY_REALM, TY_USERHASH);
+        lemma_without(s3, TY_NONCE, TY_USERNAME); lemma_without(s3, TY_NONCE, TY_USERHASH); lemma_without(s3, TY_NONCE, TY_REALM);
+        lemma_without(s4, TY_PASSWORDALGORITHM, TY_USERNAME); lemma_without(s4, TY_PASSWORDALGORITHM, TY_USERHASH);
+        lemma_without(s4, TY_PASSWORDALGORITHM, TY_REALM); lemma_without(s4, TY_PASSWORDALGORITHM, TY_NONCE);
+        lemma_without(s5, TY_PASSWORDALGORITHMS, TY_USERNAME); lemma_without(s5, TY_PASSWORDALGORITHMS, TY_USERHASH);
+        lemma_without(s5, TY_PASSWORDALGORITHMS, TY_REALM); lemma_without(s5, TY_PASSWORDALGORITHMS, TY_NONCE);
+        lemma_without(s5, TY_PASSWORDALGORITHMS, TY_PASSWORDALGORITHM);
+        assert(attributes.attributes@ == s6);
+    }
+//@prefix
+#[verifier::rlimit(60)]
+//@end
+
+// the credential attributes every request after the 401 challenge carries (RFC 8489 9.2.4), in the order added
+pub open spec fn lt_cred_seq(c: LongTermCredentialClient, with_algorithms: bool) -> Seq<StunAttribute> {
+    let p = c.params->Some_0;
+    seq![(if p.user_hash is Some { StunAttribute::UserHash(p.user_hash->Some_0) } else { StunAttribute::UserName(c.user_name) }),
+         StunAttribute::Realm(p.realm), StunAttribute::Nonce(p.nonce)]
+    + (if with_algorithms && p.password_algorithms is Some { seq![StunAttribute::PasswordAlgorithms(p.password_algorithms->Some_0)] } else { Seq::<StunAttribute>::empty() })
+    + (if with_algorithms && p.password_algorithm is Some { seq![StunAttribute::PasswordAlgorithm(p.password_algorithm->Some_0)] } else { Seq::<StunAttribute>::empty() })
+}
+pub open spec fn lt_integrity_ok(c: LongTermCredentialClient, s1: StunAttributes) -> bool {
+    match c.params->Some_0.integrity {
+        Integrity::MessageIntegrity => is_mi_with(s1.integrity, c.params->Some_0.key) && s1.integrity_sha256 is None,
+        Integrity::MessageIntegritySha256 => is_sha_with(s1.integrity_sha256, c.params->Some_0.key) && s1.integrity is None,
+    }
+}
+// C08: what every request after the challenge must look like: USERNAME or USERHASH, REALM, the latest NONCE, the offered
+// PASSWORD-ALGORITHMS and the chosen PASSWORD-ALGORITHM, and an integrity attribute under the derived key
+pub open spec fn lt_prepared(c: LongTermCredentialClient, s0: StunAttributes, s1: StunAttributes) -> bool {
+    &&& s1.attributes@ == lt_cleared(s0.attributes@) + lt_cred_seq(c, true)
+    &&& s1.fingerprint == s0.fingerprint
+    &&& lt_integrity_ok(c, s1)
+}
+impl LongTermCredentialClient {
+    pub open spec fn violated(&self) -> Set<TransactionId> { self.validator.violated() }
+    // invariant: credentials exist in every state but the first
+    pub open spec fn wf(&self) -> bool { !(self.state is FirstRequest) ==> self.params is Some }
+//@item stun_agent :: mod lt_cred_mech > impl LongTermCredentialClient > fn change_state
+//@spec
+    ensures final(self).state == new_state, final(self).user_name == old(self).user_name, final(self).password == old(self).password,
+        final(self).params == old(self).params, final(self).validator == old(self).validator,
+//@end
+//@item stun_agent :: mod lt_cred_mech > impl LongTermCredentialClient > fn first_request
+//@tags C08 C13
+//@sub "remove_auth_and_integrity_attrs(attributes);" => "lt_remove_auth_and_integrity_attrs(attributes);"
+//@spec
+    requires old(attributes).wf(),
+    ensures final(attributes).wf(), *final(self) == *old(self), r is Ok,
+        // the first request carries no credential attributes at all
+        final(attributes).attributes@ == lt_cleared(old(attributes).attributes@),
+        final(attributes).integrity is None, final(attributes).integrity_sha256 is None,
+        final(attributes).fingerprint == old(attributes).fingerprint,
+//@end
+//@item stun_agent :: mod lt_cred_mech > impl LongTermCredentialClient > fn subsequent_request
+//@tags C08 C13
+//@sub "remove_auth_and_integrity_attrs(attributes);" => "lt_remove_auth_and_integrity_attrs(attributes);"
+//@spec
+    requires old(attributes).wf(),
+    ensures final(attributes).wf(), *final(self) == *old(self),
+        old(self).params is None ==> r is Err && r->Err_0 is InternalError && *final(attributes) == *old(attributes),
+        old(self).params is Some ==> r is Ok && lt_prepared(*old(self), *old(attributes), *final(attributes)),
+//@tail
+    proof {
+        assert(attributes.attributes@ =~= lt_cleared(old(attributes).attributes@) + lt_cred_seq(*self, true));
+        assert(lt_integrity_ok(*self, *attributes));
+    }
+//@end
+}
 proof fn vx_sentinel() ensures false {}
 } // verus!
 fn main() {}
